@@ -77,7 +77,9 @@ def through_compile(i1: int, v: str, t: str) -> bool:
     g = Gen(0)
     bg = astgen.finish_background(g, astgen.mk_background(g, [astgen.mk_step(g, "Context", t, 4, 1, (t, "x", "d", "m"))], 3))
     steps = [astgen.mk_step(g, "Action", t, 11, 1, (t, "plain", "d", "m")),
-             astgen.mk_step(g, "Outcome", "s " + t, 14, 2, ("c", "c", t, t))]
+             astgen.mk_step(g, "Outcome", "s " + t, 14, 2, ("c", "c", t, t)),
+             astgen.mk_step(g, "Outcome", "u", 17, 2, ("c", "c", "no placeholder here", t)),
+             astgen.mk_step(g, "Outcome", "v", 20, 2, ("c", "c", "", "x" + t))]
     ex = [astgen.mk_examples(g, 3, [], [h, "zz"], [[v, "Z"]], 20)]
     sc = astgen.mk_scenario(g, t, [], steps, ex, 10, "Scenario Outline")
     doc = astgen.mk_doc(g, [], [bg, sc])
@@ -91,7 +93,12 @@ def through_compile(i1: int, v: str, t: str) -> bool:
     if p["name"] != e:
         return False
     st = p["steps"]
-    if len(st) != 3:
+    if len(st) != 5:
+        return False
+    # media type is substituted whatever the content looks like
+    if st[3]["argument"]["docString"] != {"content": "no placeholder here", "mediaType": e}:
+        return False
+    if st[4]["argument"]["docString"] != {"content": "", "mediaType": "x" + e}:
         return False
     # background step: not substituted
     if st[0]["text"] != t or st[0]["argument"]["dataTable"]["rows"][0]["cells"][0]["value"] != t:
